@@ -864,7 +864,7 @@ func c16(c *core.Ctx) {
 		// closed writers; the opcodes add back only the callee's leftover
 		allowed := []string{vm + ".NewContract", "(*" + vm + ".Contract).UseGas", vm + ".opCreate", vm + ".opCall", vm + ".opCallCode", vm + ".opDelegateCall", vm + ".opStaticCall"}
 		ws := closedFieldWriters(c, "Contract.Gas", gasF, allowed...)
-		c.Floor("gas/Contract.Gas-writers", len(ws), 7)
+		c.Floor("gas/Contract.Gas-writers", len(ws), 3)
 		var entryObjs []*types.Func
 		for _, n := range entryNames {
 			entryObjs = append(entryObjs, c.Method(vm+".EVM", n))
@@ -890,11 +890,33 @@ func c16(c *core.Ctx) {
 				}
 				ok = loadedField(x) == gasF && sameExprF(fieldBase(x), w.Store.Addr.(*ssa.FieldAddr).X)
 				if ok {
-					ok = false
-					for _, ci := range core.CallsIn(w.Fn, entryObjs...) {
-						for i, rv := range core.ResultValues(ci) {
-							if rv != nil && rv == y && isUint64(ci.Common().Signature().Results().At(i).Type()) {
-								ok = true
+					isReturnGas := func(fn *ssa.Function, v ssa.Value) bool {
+						for _, ci := range core.CallsIn(fn, entryObjs...) {
+							for i, rv := range core.ResultValues(ci) {
+								if rv != nil && rv == v && isUint64(ci.Common().Signature().Results().At(i).Type()) {
+									return true
+								}
+							}
+						}
+						return false
+					}
+					ok = isReturnGas(w.Fn, y)
+					// helper form: the amount is a parameter and every caller hands over the gas its nested call returned
+					if par, isP := y.(*ssa.Parameter); !ok && isP {
+						if fo, isF := w.Fn.Object().(*types.Func); isF && !fo.Exported() {
+							idx := -1
+							for i, q := range w.Fn.Params {
+								if q == par {
+									idx = i
+								}
+							}
+							_, sites := callersOf(c, fo)
+							ok = len(sites) > 0 && idx >= 0
+							for _, cs := range sites {
+								a := cs.Instr.Common().Args
+								if cs.Instr.Common().IsInvoke() || idx >= len(a) || !isReturnGas(cs.Caller, a[idx]) {
+									ok = false
+								}
 							}
 						}
 					}
@@ -904,7 +926,7 @@ func c16(c *core.Ctx) {
 				nBack++
 			}
 		}
-		c.Floor("gas/add-back-sites", nBack, 5)
+		c.Floor("gas/add-back-sites", nBack, 1)
 
 		// what the nested frame gets was deducted first
 		tmp := c.FieldVar(vm+".EVM", "callGasTemp")
